@@ -229,8 +229,9 @@ func (f *TimeBucketInfo) GetVariableRecordLength() int32 {
 	f.once.Do(f.initFromFile)
 
 	if f.recordType == VARIABLE && f.variableRecordLength == 0 {
-		// Variable records use the raw element sizes plus a 4-byte trailer for interval ticks
-		f.variableRecordLength = int32(f.getFieldRecordLength()) + intervalTicksLenBytes
+		// Variable records use the raw element sizes plus a 4-byte trailer for interval ticks.
+		// (computed on every call instead of cached: concurrent callers must not write the shared struct)
+		return int32(f.getFieldRecordLength()) + intervalTicksLenBytes
 	}
 	return f.variableRecordLength
 }
@@ -327,8 +328,14 @@ func (f *TimeBucketInfo) readHeader(path string) (err error) {
 func (f *TimeBucketInfo) load(hp *Header, path string) {
 	f.version = hp.Version
 	f.description = string(bytes.Trim(hp.Description[:], "\x00"))
-	f.Year = int16(hp.Year)
-	f.Path = filepath.Clean(path)
+	// Year and Path are also read without going through the lazy loader (catalog lookups, writers):
+	// only store them when they change so that the lazy load does not race with those readers
+	if year := int16(hp.Year); f.Year != year {
+		f.Year = year
+	}
+	if cleanPath := filepath.Clean(path); f.Path != cleanPath {
+		f.Path = cleanPath
+	}
 	f.IsRead = true
 	f.timeframe = time.Duration(hp.Timeframe)
 	f.nElements = int32(hp.NElements)
